@@ -56,6 +56,28 @@ def strip_lean_comments(src):
     return "".join(out)
 
 
+def strip_expect(c):
+    """' #expect=<line>' / ' #expect-in=<a>|<b>' suffixes are the generator's own knowledge of what the property demands of
+    the implementation's answer; they are not sent to any side."""
+    k = c.find(" #expect")
+    return c if k < 0 else c[:k]
+
+
+def expectation_fails(c, a):
+    k = c.find(" #expect")
+    if k < 0 or a is None or a == "skipped":
+        return None
+    e = c[k + 1:]
+    if e.startswith("#expect="):
+        want = [e[len("#expect="):]]
+    elif e.startswith("#expect-in="):
+        want = e[len("#expect-in="):].split("|")
+    else:
+        return None
+    got = a.split(" @", 1)[0]
+    return None if got in want else f"expected {' or '.join(want)}, got {got}"
+
+
 def split_cases(cmds):
     """Group command lines into cases; a case starts at a line whose first word starts with 'new'."""
     cases, cur = [], []
@@ -189,9 +211,16 @@ class Run:
     # ------------------------------------------------------------ running sides
     def _run_proc(self, argv, cmds, timeout):
         """Run a line-protocol child on cmds; returns (outs, status) where outs may be shorter than cmds."""
+        cmds = [strip_expect(c) for c in cmds]
+        limit = self.cfg.get("rlimit_as") if argv and argv[0] == self.axh else None
+
+        def pre():
+            import resource
+            resource.setrlimit(resource.RLIMIT_AS, (limit, limit))
+
         with tempfile.TemporaryFile("w+") as fo:
             p = subprocess.Popen(argv, stdin=subprocess.PIPE, stdout=fo, stderr=subprocess.DEVNULL, text=True,
-                                 env=self.env)
+                                 env=self.env, preexec_fn=pre if limit else None)
             status = "ok"
             try:
                 p.communicate("\n".join(cmds) + "\n", timeout=timeout)
@@ -259,6 +288,7 @@ class Run:
         """Implementation first; a trailing ' @token' of an implementation output line is feedback for the model
         (values only the running implementation knows, e.g. the descriptor numbers its RNG handed out): it is
         stripped from the compared output and appended to the model's command."""
+        cmds = [strip_expect(c) for c in cmds]
         raw = self.run_impl(cmds, timeout)
         if self.cfg.get("two_run"):
             # C20: a second, independent execution of the same commands in a fresh process whose RNG, hash seeds and
@@ -335,26 +365,56 @@ class Run:
         return d, impl, model
 
     def shrink(self, cmds, budget=250):
-        """Greedy delta debugging on the command list of one case (first line kept)."""
+        """Greedy delta debugging on the command list of one case (first line kept).  A candidate counts only if it fails
+        the same way: same command verb at the first difference, and not merely because the shrinking removed something
+        the model needs (decoder answers) or produced a line one side does not understand."""
         cur = list(cmds)
-        d, _, _ = self.case_fails(cur)
-        if d is None:
+        d, impl0, model0 = self.case_fails(cur)
+        if d is None or d >= len(cur):
             return cur
+        verb = cur[d].split(" ", 1)[0]
         cur = cur[: d + 1]
         tries = 0
         changed = True
+
+        def same_failure(cand):
+            dd, ci, cm = self.case_fails(cand)
+            if dd is None or dd >= len(cand) or cand[dd].split(" ", 1)[0] != verb:
+                return None
+            a = ci[dd] if dd < len(ci) else ""
+            b = cm[dd] if dd < len(cm) else ""
+            if b in ("no-decode-info", "bad-op", "model-crash") or a == "bad-op":
+                return None
+            return dd
+
         while changed and tries < budget:
             changed = False
             i = len(cur) - 2
             while i >= 1 and tries < budget:
+                if cur[i].startswith("dec "):
+                    i -= 1
+                    continue
                 cand = cur[:i] + cur[i + 1:]
                 tries += 1
-                dd, _, _ = self.case_fails(cand)
+                dd = same_failure(cand)
                 if dd is not None:
                     cur = cand[: dd + 1]
                     changed = True
                     i = min(i, len(cur) - 1)
                 i -= 1
+        # drop decoder answers for addresses that are never fetched only at the very end, all at once
+        keep = [c for c in cur if not c.startswith("dec ")]
+        if len(keep) < len(cur):
+            used = cur
+            # try removing each dec line individually is expensive: remove those whose removal keeps the failure, in one sweep
+            for c in [c for c in cur if c.startswith("dec ")]:
+                if tries >= budget + 60:
+                    break
+                cand = [x for x in used if x != c]
+                tries += 1
+                if same_failure(cand) is not None:
+                    used = cand
+            cur = used
         return cur
 
     # ----------------------------------------------------------------- replay
@@ -403,6 +463,11 @@ class Run:
                 cpu_viol = any(self.match_known(kf, a_) is None for a_, _ in j)
         extra = self.cfg.get("oracle")
         viol = d is not None or cpu_viol
+        for c, a in zip(cmds, impl):
+            why = expectation_fails(c, a)
+            if why:
+                print("expectation:", strip_expect(c)[:200], "-", why[:400])
+                viol = True
         if extra:
             msgs = extra(cmds, impl)
             for m in msgs:
@@ -507,7 +572,8 @@ class Run:
                 for c, a in zip(case, ci):
                     verb = c.split(" ", 1)[0]
                     oc = a.split(" ", 1)[0] if a else ""
-                    hist[verb + ":" + oc] = hist.get(verb + ":" + oc, 0) + 1
+                    hk = oc if len(oc) <= 12 and not NUM.match(oc) else "value"
+                    hist[verb + ":" + hk] = hist.get(verb + ":" + hk, 0) + 1
                     if oc not in ("-", "bad-op", "skipped", ""):
                         fps.add(fingerprint(c, a))
                 if len(samples) < 3 and len(case) > 2 and n_cases % 97 == 1:
@@ -518,10 +584,16 @@ class Run:
                 d = self.diff_case(case, ci, cm)
                 if d is not None:
                     disagreements.append((case, ci, cm, d))
+                msgs = []
+                for c, a in zip(case, ci):
+                    why = expectation_fails(c, a)
+                    if why:
+                        msgs.append(f"expect:{c.split(' ', 1)[0]}: {strip_expect(c)}: {why}")
+                        break
                 if oracle:
-                    msgs = oracle(case, ci)
-                    if msgs:
-                        oracle_fail.append((case, ci, cm, msgs))
+                    msgs += oracle(case, ci)
+                if msgs:
+                    oracle_fail.append((case, ci, cm, msgs))
         if not samples and results and results[0][0]:
             c0 = split_cases(results[0][0])[0]
             samples.append({"commands": c0[:12], "impl": results[0][1][:len(c0)][:12], "model": results[0][2][:len(c0)][:12]})
@@ -566,7 +638,7 @@ class Run:
         reported = set()
         # implementation failures against the property's own oracle
         for case, ci, cm, msgs in oracle_fail[:50]:
-            key = msgs[0]
+            key = msgs[0].split(": ")[0]
             ent = self.match_known(kf, key)
             if ent is not None:
                 known_hit[ent["id"]] = ent
@@ -617,6 +689,7 @@ class Run:
             violations.append(f"VIOLATION property={pid} replay={path} no-failing-input-found")
         for ent in known_hit.values():
             print(f"KNOWN-FINDING: property={pid} {ent['what']}")
+        violations = list(dict.fromkeys(violations))
         for v in violations:
             print(v)
         extra = {"cpu_cases_compared": cpu_compared, "cpu_cases_not_comparable": cpu_skipped, "cpu_mismatches": len(cpu_mismatch),
